@@ -39,6 +39,7 @@ type Scenario struct {
 	Prepop    int    `json:"prepop"`   // documents indexed before the workers start
 	Perturb   int    `json:"perturb"`  // 0 none, 1 light, 2 heavy (hook delays)
 	CloseAt   string `json:"close_at"` // "ops:<n>" after n calls began | "gate:<point>:<k>" at the k-th hit of a hook point
+	Close2    bool   `json:"close2"`   // a second goroutine calls Close at the same moment (one succeeds, one gets the closed-index error)
 	Hazard    string `json:"hazard"`   // "" | fd | close2 | fmmem   (dedicated hazard scenarios)
 	Dir       string `json:"dir"`      // scratch directory (disk index, copy targets)
 	WatchdogS int    `json:"watchdog_s"`
@@ -316,8 +317,11 @@ func (r *runner) oneOp(g int, rng *rand.Rand, late bool, forceAfterCancel bool) 
 		}
 		pick -= m.w
 	}
-	if name == "forcemerge" && (r.adv == nil || r.sc.Engine != "disk") {
-		name = "doccount" // ForceMerge needs the merger loop (hazard fmmem is a scenario of its own)
+	if name == "forcemerge" && r.adv == nil {
+		name = "doccount" // upsidedown: Advanced() is not a scorch index
+	}
+	if late && name == "stats" {
+		name = "close" // Close after Close: the closed-index error (repair fb2d875)
 	}
 	switch name {
 	case "index":
@@ -396,6 +400,8 @@ func (r *runner) oneOp(g int, rng *rand.Rand, late bool, forceAfterCancel bool) 
 		r.call(g, "stats", 0, 0, func() error { _, err := idx.Stats().MarshalJSON(); return err })
 	case "statsmap":
 		r.call(g, "statsmap", 0, 0, func() error { _ = idx.StatsMap(); return nil })
+	case "close":
+		r.call(g, "close", 0, 0, idx.Close)
 	case "forcemerge":
 		ctx, cancel := context.WithCancel(context.Background())
 		ctxMode := 0
@@ -573,23 +579,39 @@ func RunScenario(sc Scenario) *Result {
 				}(w)
 			}
 			go func() { budgetWG.Wait(); close(budgetDone) }()
-			// the closer: Close is called exactly once, at the seeded moment
-			wg.Add(1)
-			go func() {
-				defer wg.Done()
-				select {
-				case <-r.closeTrig:
-				case <-budgetDone:
-				}
-				r.mu.Lock()
-				for _, oc := range r.open {
-					res.InFlightAtClose = append(res.InFlightAtClose, oc.op)
-				}
-				r.mu.Unlock()
-				sort.Strings(res.InFlightAtClose)
-				r.call(closerG, "close", 0, 0, idx.Close)
-				close(r.closeRet)
-			}()
+			// the closer(s): Close is called at the seeded moment, by one goroutine or by two at once
+			nClosers := 1
+			if sc.Close2 {
+				nClosers = 2
+			}
+			var closersLeft atomic.Int32
+			closersLeft.Store(int32(nClosers))
+			var relOnce sync.Once
+			for k := 0; k < nClosers; k++ {
+				wg.Add(1)
+				go func(k int) {
+					defer wg.Done()
+					select {
+					case <-r.closeTrig:
+					case <-budgetDone:
+					}
+					if k == 0 {
+						r.mu.Lock()
+						for _, oc := range r.open {
+							if oc.op != "close" {
+								res.InFlightAtClose = append(res.InFlightAtClose, oc.op)
+							}
+						}
+						r.mu.Unlock()
+						sort.Strings(res.InFlightAtClose)
+					}
+					cres := r.call(closerG+k, "close", 0, 0, idx.Close)
+					// the workers' late calls start once a Close has succeeded (or, should none, when all closers are back)
+					if cres == "ok" || closersLeft.Add(-1) == 0 {
+						relOnce.Do(func() { close(r.closeRet) })
+					}
+				}(k)
+			}
 		default:
 			runHazard(r, sc, &wg)
 		}
